@@ -21,7 +21,7 @@ ASSUMPTIONS = ["results are compared as (name, type, module_path, line, column, 
                "each of the three reference processes has a private warm parser cache copied from the same snapshot",
                "vendored typeshed"]
 
-METHODS = ["complete", "infer", "goto", "help", "get_references", "get_signatures"]
+METHODS = ["complete", "infer", "goto", "help", "get_references", "get_signatures", "get_context"]
 SETLIKE = {"goto", "help"}
 
 
